@@ -133,7 +133,43 @@ func runC16(e *Env) {
 						okEdge = false
 					}
 				})
-				e.R.Check(nRel == 1 && okEdge, "C16.R2", q+":"+shortType(pair[1])+"-only-after-success", e.pos(call), "the (deferred) release is armed only on the successful-acquisition edge", "a release is reachable or deferred on the failed-acquisition edge: a cancelled waiter would give away a slot it does not own")
+				// a release inside a closure (a release function built after the acquisition and deferred by the caller): the closure
+				// must be created on the successful edge only
+				core.Instrs(f, func(in ssa.Instruction) {
+					mk, isMk := in.(*ssa.MakeClosure)
+					if !isMk {
+						return
+					}
+					body, _ := mk.Fn.(*ssa.Function)
+					if body == nil || len(core.CallsNamedDeep(body, pair[1])) == 0 {
+						return
+					}
+					nRel++
+					if !core.OnlyViaEdge(errIf, nilBranch, mk) {
+						okEdge = false
+					}
+				})
+				// … and never twice on one path: no explicit release is reachable once the release has been deferred
+				core.Instrs(f, func(in ssa.Instruction) {
+					d, isD := in.(*ssa.Defer)
+					if !isD {
+						return
+					}
+					deferredRel := core.CalleeName(d) == pair[1]
+					if body := core.StaticFn(d); !deferredRel && body != nil && body.Parent() != nil && len(core.CallsNamedDeep(body, pair[1])) > 0 {
+						deferredRel = true
+					}
+					if !deferredRel {
+						return
+					}
+					if w := (&core.PathQuery{Fn: f, From: d, Target: func(x ssa.Instruction) bool {
+						c, isC := x.(*ssa.Call)
+						return isC && core.CalleeName(c) == pair[1]
+					}}).Find(); w != nil {
+						okEdge = false
+					}
+				})
+				e.R.Check(nRel >= 1 && okEdge, "C16.R2", q+":"+shortType(pair[1])+"-only-after-success", e.pos(call), "the (deferred) release is armed only on the successful-acquisition edge", "a release is reachable or deferred on the failed-acquisition edge: a cancelled waiter would give away a slot it does not own")
 			}
 		}
 		// and the success side is released on all exits (same obligations as C13.R4)
@@ -180,7 +216,7 @@ func runC16(e *Env) {
 						return ok && fl == "processedCounter"
 					}
 					isLim := func(v ssa.Value) bool {
-						ld, ok := v.(*ssa.UnOp)
+						ld, ok := core.Resolve(v).(*ssa.UnOp) // through a helper's parameter to the argument of its call
 						if !ok {
 							return false
 						}
